@@ -26,6 +26,9 @@ structure AtomInfo where
   widen : Bool              -- `<<= 32; s>>= 32` on the left operand
 deriving Repr
 
+/-- `sg` = `l.signed || r.signed` of the objects as built; by `Gen.elabC_cmp_sg` / `elab_psigned` (Lemmas/TypingCond.lean)
+that is the property-level signedness of the comparison as written (`SExpr.psigned`), which is what the harness hands to
+its mirror `dsl_cond.atom_info` (`atom_psigned`: from the program text, never from the real objects' attributes) -/
 def atomInfo (l r : Expr) : AtomInfo :=
   let lLong := widthOf l
   let rImm := r.asSmallConst.isSome
